@@ -8,9 +8,9 @@ using namespace fw;
 using namespace lib;
 
 enum { OP_CREATE, OP_CREATE_FAIL, OP_DESTROY, OP_DESTROY_DEAD, OP_USE, OP_PROBE_DEAD, OP_PRESET, OP_DECODE_INSUFF,
-       OP_DECODE_BADHDR, OP_BADARGS, OP_META, OP_ENCODE_THREAD, OP_RECON, OP_NOPS };
+       OP_DECODE_BADHDR, OP_BADARGS, OP_META, OP_ENCODE_THREAD, OP_RECON, OP_XDESTROY, OP_SIZE_LIE, OP_NOPS };
 static const char *OPN[] = {"create", "create_fail", "destroy", "destroy_dead", "use", "probe_dead", "preset", "decode_insuff",
-                            "decode_badhdr", "badargs", "meta", "encode_thread", "recon"};
+                            "decode_badhdr", "badargs", "meta", "encode_thread", "recon", "xdestroy", "size_lie"};
 enum { MODE_C14 = 14, MODE_C15 = 15, MODE_C16 = 16 };
 static const int NSLOTS = 4;
 static bool g_explicit_lsan = true;     // the libFuzzer target switches to libFuzzer's own leak detection
@@ -122,6 +122,7 @@ static bool round_trip(SlotState &s, int salt, Result &r, bool check_serializer)
     return true;
 }
 
+static void *destroy_thread(void *p) { int *d = (int *)p; d[1] = liberasurecode_instance_destroy(d[0]); return nullptr; }
 struct ThreadArg { int desc; const Config *g; const std::vector<uint8_t> *data; Stripe out; };
 static void *encode_thread(void *p) { ThreadArg *a = (ThreadArg *)p; a->out = encode(a->desc, *a->g, *a->data); return nullptr; }
 
@@ -249,7 +250,7 @@ static Result run_history(const Case &c, int mode) {
                 {"get_fragment_size", liberasurecode_get_fragment_size(d, 100), false},
                 {"instance_destroy", liberasurecode_instance_destroy(d), false},
             };
-            for (auto &p : pr) if (p.one ? p.rc != 1 : p.rc >= 0) fail_at(step, std::string(p.n) + " accepted dead descriptor " + std::to_string(d) + " (returned " + std::to_string(p.rc) + ")");
+            for (auto &p : pr) if (p.one ? p.rc == 0 : p.rc >= 0) fail_at(step, std::string(p.n) + " accepted dead descriptor " + std::to_string(d) + " (returned " + std::to_string(p.rc) + ")");
             free(frag);
             w.failing_call = true;
             break;
@@ -336,6 +337,55 @@ static Result run_history(const Case &c, int mode) {
             }
             if (liberasurecode_verify_stripe_metadata(s.desc, ptrs.data(), n) != 0) fail_at(step, "verify_stripe_metadata failed on the kept stripe");
             for (int i = 0; i < n; i++) if (memcmp(ptrs[i], s.s.frags[i].data(), s.s.frags[i].size())) fail_at(step, "query modified a fragment");
+            break;
+        }
+        case OP_XDESTROY: {
+            // the owner looks the descriptor up, ANOTHER thread destroys it (joined before we go on), then the
+            // owner must find it refused: a destroyed descriptor is dead for every thread
+            SlotState &s = w.slot[a % NSLOTS];
+            if (!s.live) break;
+            if (liberasurecode_get_minimum_encode_size(s.desc) <= 0) { fail_at(step, "live descriptor refused"); break; }
+            int dd[2] = {s.desc, 12345};
+            pthread_t th;
+            if (pthread_create(&th, nullptr, destroy_thread, dd) != 0) break;
+            pthread_join(th, nullptr);
+            if (dd[1] != 0) { fail_at(step, "destroy from another thread failed rc=" + std::to_string(dd[1])); break; }
+            if (!w.create_order.empty() && w.create_order.back() != s.desc) w.non_lifo = true;
+            w.create_order.erase(std::remove(w.create_order.begin(), w.create_order.end(), s.desc), w.create_order.end());
+            s.live = false; w.dead.push_back(s.desc);
+            int v = liberasurecode_get_minimum_encode_size(s.desc);
+            if (v >= 0) fail_at(step, "descriptor " + std::to_string(s.desc) + " destroyed by another thread still answers a size query on the owner thread (" + std::to_string(v) + ")");
+            int v2 = liberasurecode_instance_destroy(s.desc);
+            if (v2 >= 0) fail_at(step, "second destroy (owner thread) of a descriptor destroyed by another thread returned " + std::to_string(v2));
+            w.failing_call = true;
+            break;
+        }
+        case OP_SIZE_LIE: {
+            // re-sealed fragments that disagree on the original data length: a documented error path
+            // ("Inconsistent orig_data_size"); only memory safety and leak freedom are demanded here
+            SlotState &s = w.slot[a % NSLOTS];
+            if (!s.live || !s.has_stripe || s.s.data.size() < 8) break;
+            int n = s.g.n();
+            std::vector<std::vector<uint8_t>> cp(s.s.frags);
+            int nlie = 1 + (int)(b % 2);
+            for (int j = 0; j < nlie; j++) {
+                std::vector<uint8_t> &f = cp[(b / 3 + j * 5) % n];
+                uint64_t o = ref::get64(&f[ref::O_ORIG]);
+                int64_t delta = (int64_t)((b >> 4) % 7) - 3; if (delta == 0) delta = 1;
+                if ((int64_t)o + delta < 0) delta = 1;
+                ref::put64(&f[ref::O_ORIG], o + delta);
+                ref::reseal(f.data());
+            }
+            std::vector<const std::vector<uint8_t> *> frs;
+            int drop = (int)((b >> 8) % 3);      // 0: complete, 1: one data fragment missing, 2: one parity missing
+            for (int i = 0; i < n; i++) { if (drop == 1 && i == (int)(b % s.g.k)) continue; if (drop == 2 && i == s.g.k + (int)(b % s.g.m)) continue; frs.push_back(&cp[i]); }
+            for (int force = 0; force < 2; force++) {
+                FragSet fs; fs.build(frs, {});
+                DecodeOut d = decode(s.desc, fs, s.s.fraglen, force);
+                if (d.rc > 0) fail_at(step, "positive rc");
+                if (!fs.unchanged()) fail_at(step, "decode modified an input");
+            }
+            w.failing_call = true;
             break;
         }
         case OP_ENCODE_THREAD: {
@@ -534,9 +584,9 @@ static Case gen_history(int mode) {
     int len = (int)pick(1, maxlen);
     if (coin(2, 3)) len = (int)pick(1, std::min(maxlen, 25));
     std::vector<int> wts;
-    if (mode == MODE_C14) wts = {8, 2, 5, 2, 4, 2, 1, 0, 0, 0, 0, 0, 1};
-    else if (mode == MODE_C15) wts = {5, 1, 2, 1, 6, 0, 0, 1, 1, 1, 3, 3, 3};
-    else wts = {6, 2, 4, 2, 5, 2, 0, 3, 3, 3, 2, 1, 3};
+    if (mode == MODE_C14) wts = {8, 2, 5, 2, 4, 2, 1, 0, 0, 0, 0, 0, 1, 2, 0};
+    else if (mode == MODE_C15) wts = {5, 1, 2, 1, 6, 0, 0, 1, 1, 1, 3, 3, 3, 0, 0};
+    else wts = {6, 2, 4, 2, 5, 2, 0, 3, 3, 3, 2, 1, 3, 1, 3};
     int tot = 0; for (int x : wts) tot += x;
     auto ops = *rc::gen::resize(len, rc::gen::container<std::vector<std::tuple<int, int, int>>>(
         rc::gen::tuple(rc::gen::resize(100, rc::gen::inRange(0, tot)), rc::gen::resize(100, rc::gen::inRange(0, 1 << 12)), rc::gen::resize(100, rc::gen::inRange(0, 1 << 12)))));
